@@ -30,6 +30,27 @@ STATE_QUERIES = ("get_state", "get_shutter_state", "get_breeze_state")
 LIFECYCLE = ("connect", "disconnect", "aenter", "aexit")
 
 
+def is_runtime_error(outcome) -> bool:
+    """The operation raised RuntimeError or a subclass of it (the statement does not name an exact class)."""
+    return outcome is not None and outcome[0] == "exc" and "RuntimeError" in outcome[3]
+
+
+def final_reply(op) -> Optional[bytes]:
+    """Bytes the application read after its last write (the final reply as it saw it); falls back to what the
+    device sent when the library's reads are not observable through the StreamReader seam."""
+    tr = getattr(op, "trace", None)
+    if tr:
+        last_w = max((i for i, (k, _) in enumerate(tr) if k == "w"), default=-1)
+        reads = [d for k, d in tr[last_w + 1:] if k == "r"]
+        if reads:
+            return b"".join(reads)
+        if any(k == "r" for k, _ in tr):
+            return b""
+    if op.exchanges:
+        return op.exchanges[-1].sent
+    return None
+
+
 def cnt(c: Dict[str, int], k: str, n: int = 1):
     c[k] = c.get(k, 0) + n
 
@@ -113,6 +134,8 @@ def classify_hhmm(s: Any) -> str:
             return "reject"                  # "ab:cd", "12:", ":30"
         return "grey"
     if int(a) > 23 or int(b) > 59:
+        if (int(a), int(b)) == (24, 0):
+            return "grey"                    # "24:00" can be read as the end of the day
         if len(a) <= 2 and len(b) <= 2:
             return "reject"                  # "25:00", "12:60"
         return "grey"
@@ -154,6 +177,8 @@ def expected_args(cl, op, run) -> Tuple[str, Optional[List[Dict[str, Any]]]]:
         return "accepted", [dict(dev, on=1 if a["command"] == "ON" else 0, timer=60 * m)]
     if k == "set_auto_shutdown":
         s = floor_minute_seconds(a["seconds"])
+        if 86340 < a["seconds"] < 86400:
+            return "grey", None                  # 23:59:01..23:59:59: inside by flooring, outside by "<= 23h59m"
         if 3600 <= s <= 86340:
             return "accepted", [dict(dev, seconds=s)]
         return "reject", None
@@ -344,7 +369,10 @@ def judge_c03(scn, run) -> Tuple[List[Viol], Dict[str, int]]:
         if op.outcome[0] == "ok" and op.outcome[1] == "unavailable":
             continue
         if not op.units:
-            v.append(("C03/no-login-frame/%s" % op.kind, "%s wrote nothing" % op.kind))
+            if op.outcome[0] == "exc":
+                cnt(c, "grey:raised-before-any-io")     # e.g. arguments validated before logging in
+            else:
+                v.append(("C03/no-login-frame/%s" % op.kind, "%s returned normally but wrote nothing" % op.kind))
             continue
         cnt(c, "judged-ops")
         # 1. first frame is this API type's login frame with key / id
@@ -413,7 +441,8 @@ def judge_c03(scn, run) -> Tuple[List[Viol], Dict[str, int]]:
 
 
 def amps_ok(amps: Any, watts: int) -> bool:
-    return isinstance(amps, float) and abs(amps - watts / 220.0) <= 0.05 + 1e-9 and abs(amps * 10 - round(amps * 10)) < 1e-6
+    return isinstance(amps, (int, float)) and not isinstance(amps, bool) and abs(amps - watts / 220.0) <= 0.05 + 1e-9 \
+        and abs(amps * 10 - round(amps * 10)) < 1e-6
 
 
 def judge_c08(scn, run) -> Tuple[List[Viol], Dict[str, int]]:
@@ -495,13 +524,13 @@ def judge_c09(scn, run) -> Tuple[List[Viol], Dict[str, int]]:
             cnt(c, "grey:not-bytes")
             continue
         lr = login_read(op)
-        final = op.app_reads[-1] if op.app_reads else None
+        final = final_reply(op)
         if op.kind in STATE_QUERIES:
             cnt(c, "judged-state-query")
             if op.outcome[0] == "ok":
                 if op.outcome[1].get("cls") != RESP_CLASS[op.kind]:
                     v.append(("C09/wrong-class/%s" % op.kind, "%s returned %r" % (op.kind, op.outcome[1])))
-            elif op.outcome[1] != "RuntimeError":
+            elif not is_runtime_error(op.outcome):
                 v.append(("C09/escaped-exception/%s/%s" % (op.kind, op.outcome[1]),
                           "%s raised %s(%s) after replies %s" % (
                               op.kind, op.outcome[1], op.outcome[2], [r.hex()[:60] for r in op.app_reads])))
@@ -516,7 +545,7 @@ def judge_c09(scn, run) -> Tuple[List[Viol], Dict[str, int]]:
             cnt(c, "grey:generic-raised")
         if lr is not None and len(lr) == 0 and (op.kind in STATE_QUERIES or op.kind in TYPE2_OPS):
             cnt(c, "judged-empty-login")
-            if not (op.outcome[0] == "exc" and op.outcome[1] == "RuntimeError"):
+            if not is_runtime_error(op.outcome):
                 v.append(("C09/empty-login-not-refused/%s" % op.kind,
                           "login reply was empty but %s ended with %r" % (op.kind, op.outcome[:2])))
             if len(op.units) > 1:
@@ -542,7 +571,7 @@ def judge_c18(scn, run) -> Tuple[List[Viol], Dict[str, int]]:
             if k in ("connect", "aenter"):
                 if refused:
                     cnt(c, "probe:refused-connect")
-                    if op.outcome[0] != "exc" or "OSError" not in op.outcome[3]:
+                    if op.outcome[0] != "exc":
                         v.append(("C18/refused-connect-not-raised", "refused %s ended with %r" % (k, op.outcome[:2])))
                 else:
                     if op.outcome[0] != "ok":
@@ -613,7 +642,7 @@ def judge_c16(scn, run) -> Tuple[List[Viol], Dict[str, int]]:
         # ---- fault clause: an empty reply anywhere => RuntimeError or unsuccessful response
         if "eof" in modes:
             cnt(c, "judged-eof-step-%d" % (modes.index("eof") + 1))
-            ok = op.outcome[0] == "exc" and op.outcome[1] == "RuntimeError" or \
+            ok = is_runtime_error(op.outcome) or \
                 op.outcome[0] == "ok" and op.outcome[1].get("successful") is False
             if not ok:
                 v.append(("C16/success-after-empty-reply/step%d" % (modes.index("eof") + 1),
@@ -625,25 +654,35 @@ def judge_c16(scn, run) -> Tuple[List[Viol], Dict[str, int]]:
             continue
         # ---- nothing actionable
         if not main and not swing_cmd:
+            if special and "swing" in given and upd:
+                # swing-only in update-only mode on a separate-swing remote: sending the status frame and refusing
+                # are both readings of the statement
+                cnt(c, "grey:update-only-swing-on-separate-swing-remote")
+                continue
             cnt(c, "judged-nothing-actionable")
-            if not (op.outcome[0] == "exc" and op.outcome[1] == "RuntimeError"):
+            if not is_runtime_error(op.outcome):
                 v.append(("C16/nothing-actionable-not-refused", "control_breeze_device(%s) ended with %r" % (a, op.outcome[:2])))
-            if len(op.units) > 1:
-                v.append(("C16/nothing-actionable-frame", "nothing actionable but frames %s were written" % kinds[1:]))
             continue
-        exp_kinds = ["login2"]
         text_main = None
         verdict = "code"
         merged = None
-        if main:
-            snap = None
+        snap = None
+        after = list(zip(kinds[1:], op.units[1:]))
+        had_query = bool(after and after[0][0] == "get_state2")
+        if had_query:
+            after = after[1:]
             for ex in op.exchanges:
                 if ex.kind == "get_state2":
                     snap = ex.snapshot
                     break
+        if main:
+            all_given = {"state", "mode", "target", "fan", "swing"} <= given
             if snap is None:
-                v.append(("C16/no-state-query", "control_breeze_device(%s) did not ask the device for its state; frames %s" % (a, kinds)))
-                continue
+                if toggle or not all_given:
+                    # an omitted setting (or, for a toggle remote, the previous power state) can only come from the device
+                    v.append(("C16/no-state-query", "control_breeze_device(%s) did not ask the device for its state; frames %s" % (a, kinds)))
+                    continue
+                cnt(c, "probe:all-settings-given-no-query")
             merged = {
                 "on": (a["state"] == "ON") if a.get("state") else snap["on"],
                 "mode": MODE_NUM[a["mode"]] if a.get("mode") else snap["mode"],
@@ -651,24 +690,15 @@ def judge_c16(scn, run) -> Tuple[List[Viol], Dict[str, int]]:
                 "fan": FAN_NUM[a["fan"]] if a.get("fan") else snap["fan"],
                 "swing": (a["swing"] == "ON") if a.get("swing") else bool(snap["swing"]),
             }
-            exp_kinds.append("get_state2")
-            if upd:
-                exp_kinds.append("breeze_update")
-            else:
+            if not upd:
                 key_swing = False if special else merged["swing"]
                 verdict, text_main = irsets.ref_lookup(irset, merged["on"], merged["mode"], merged["target"],
-                                                       merged["fan"], key_swing, snap["on"])
-                if verdict == "code":
-                    exp_kinds.append("breeze_command")
+                                                       merged["fan"], key_swing, snap["on"] if snap else None)
         if verdict == "grey":
             cnt(c, "grey:no-key-in-set")
             continue
         if verdict == "bad-mode":
-            cnt(c, "judged-unsupported-mode")
-            if op.outcome[0] != "exc":
-                v.append(("C16/unsupported-mode-accepted", "mode %s is not in the remote's set but the call returned" % merged["mode"]))
-            if "breeze_command" in kinds:
-                v.append(("C16/unsupported-mode-frame", "mode %s unsupported but a command frame was written" % merged["mode"]))
+            cnt(c, "grey:mode-not-in-remote")        # refusing it is C15's clause; C16 says nothing about it
             continue
         text_swing = None
         if swing_cmd:
@@ -676,58 +706,67 @@ def judge_c16(scn, run) -> Tuple[List[Viol], Dict[str, int]]:
             if sv == "grey":
                 cnt(c, "grey:no-swing-key")
                 continue
-            exp_kinds.append("breeze_command")
         cnt(c, "judged")
-        if kinds != exp_kinds:
+        lr = login_read(op)
+        session = lr[8:12] if lr is not None and len(lr) >= 12 else b"\x00" * 4
+        dev = {"device_id": bytes.fromhex(cl.cfg["id"])}
+        # the command frames this call must send (their mutual order is not part of the statement)
+        want: List[Tuple[str, str, Any]] = []
+        if main and upd:
+            alts = [dict(dev, state=1 if merged["on"] else 0, mode=merged["mode"], target=merged["target"] & 0xFF,
+                         fan=merged["fan"], swing=sw) for sw in ([0, 1] if special else [1 if merged["swing"] else 0])]
+            want.append(("status", "breeze_update", alts))
+        elif main:
+            if 87 + len(text_main) + 4 >= 256:
+                cnt(c, "probe:ir-frame>=256")
+            if 4 + len(text_main) < 16:
+                cnt(c, "probe:ir-payload<16")
+            want.append(("command", "breeze_command", [dict(dev, text=text_main.encode())]))
+        if swing_cmd:
+            want.append(("swing", "breeze_command", [dict(dev, text=text_swing.encode())]))
+        if sorted(k for k, _ in after) != sorted(k for _, k, _ in want) or kinds[:1] != ["login2"]:
             v.append(("C16/frame-sequence/%s" % ("update" if upd else "command"),
-                      "control_breeze_device(%s) on a %s remote wrote %s, expected %s" % (a, cap, kinds, exp_kinds)))
+                      "control_breeze_device(%s) on a %s remote wrote %s, expected login2%s + %s" % (
+                          a, cap, kinds, ", get_state2" if had_query else "", [k for _, k, _ in want])))
             continue
         if op.outcome[0] != "ok" or not op.outcome[1].get("successful"):
             v.append(("C16/failed-without-fault", "control_breeze_device(%s) ended with %r although every reply was fine" % (a, op.outcome[:2])))
             continue
-        lr = login_read(op)
-        session = lr[8:12]
-        dev = {"device_id": bytes.fromhex(cl.cfg["id"])}
-        idx = 1
-        if main:
-            idx = 2
-            u = op.units[2]
-            if upd:
-                alts = [dict(dev, state=1 if merged["on"] else 0, mode=merged["mode"], target=merged["target"] & 0xFF,
-                             fan=merged["fan"], swing=s) for s in ([0, 1] if special else [1 if merged["swing"] else 0])]
-                best = None
-                for alt in alts:
-                    exp, fmap = frames.build("breeze_update", session, 0, alt)
-                    d = diff_fields(u, exp, fmap, ignore=("timestamp", "length"))
-                    if not d:
-                        best = None
-                        break
+
+        def frame_diffs(unit, kind, alts):
+            best = None
+            for alt in alts:
+                exp, fmap = frames.build(kind, session, 0, alt)
+                d = diff_fields(unit, exp, fmap, ignore=("timestamp", "length"))
+                if not d:
+                    return []
+                if best is None or len(d) < len(best):
                     best = d
-                if best:
-                    v.append(("C16/status-frame/%s" % "+".join(best[:3]),
-                              "update-only control(%s) with device state %s: status frame differs in %s: %s" % (
-                                  a, snap, best, u.hex())))
+            return best
+
+        orders = [list(range(len(want)))]
+        if len(want) == 2 and want[0][1] == want[1][1]:
+            orders.append([1, 0])
+        found = None
+        for order in orders:
+            diffs = [(want[w][0], frame_diffs(after[pos][1], want[w][1], want[w][2]), after[pos][1], want[w]) for pos, w in enumerate(order)]
+            if all(not d for _, d, _, _ in diffs):
+                found = []
+                break
+            if found is None:
+                found = diffs
+        for role, d, unit, w in found or []:
+            if not d:
+                continue
+            if role == "status":
+                v.append(("C16/status-frame/%s" % "+".join(d[:3]),
+                          "update-only control(%s) with device state %s: status frame differs in %s: %s" % (a, snap, d, unit.hex())))
             else:
-                if 87 + len(text_main) + 4 >= 256:
-                    cnt(c, "probe:ir-frame>=256")
-                if 4 + len(text_main) < 16:
-                    cnt(c, "probe:ir-payload<16")
-                exp, fmap = frames.build("breeze_command", session, 0, dict(dev, text=text_main.encode()))
-                d = diff_fields(u, exp, fmap, ignore=("timestamp", "length"))
-                if d:
-                    which = "ir_length/%s" % size_class(4 + len(text_main)) if d == ["ir_length"] else "+".join(d[:3])
-                    v.append(("C16/command-frame/%s" % which,
-                              "control(%s) with device state %s (merged %s): command frame differs in %s; expected code %r, frame %s" % (
-                                  a, snap, merged, d, text_main[:60], u.hex()[:260])))
-            idx = 3
-        if swing_cmd:
-            u = op.units[idx]
-            exp, fmap = frames.build("breeze_command", session, 0, dict(dev, text=text_swing.encode()))
-            d = diff_fields(u, exp, fmap, ignore=("timestamp", "length"))
-            if d:
-                which = "ir_length/%s" % size_class(4 + len(text_swing)) if d == ["ir_length"] else "+".join(d[:3])
-                v.append(("C16/swing-frame/%s" % which,
-                          "swing command for %s differs in %s: %s" % (a["swing"], d, u.hex()[:200])))
+                text = w[2][0]["text"].decode()
+                which = "ir_length/%s" % size_class(4 + len(text)) if d == ["ir_length"] else "+".join(d[:3])
+                v.append(("C16/%s-frame/%s" % (role, which),
+                          "control(%s) with device state %s (merged %s): %s frame differs in %s; expected code %r, frame %s" % (
+                              a, snap, merged, role, d, text[:60], unit.hex()[:260])))
     return v, c
 
 
